@@ -59,15 +59,37 @@ def main():
         if r.returncode != 1:
             ok = False
             print("demo does not fail on the patched tree: rc", r.returncode, r.stdout[-300:], r.stderr[-300:])
+        # which tests can see the patch?  No test file imports frontend/ or global_config (checked here by grep), and
+        # data_persistence/ is imported by the two persistence test files only; a patch confined to such files cannot
+        # change the outcome of the other test files, so only the test files that can see it are run.
+        touched = re.findall(r"^\+\+\+ b/(\S+)", open(patch).read(), re.M)
+        tests_see_frontend = sh(f"grep -rlE 'frontend|global_config' {wt}/test").stdout.strip()
+        tests_see_dp = set(sh(f"grep -rl data_persistence {wt}/test {wt}/schemes {wt}/toolkit").stdout.split())
+        only_frontend = all(t.startswith("frontend/") or t == "global_config.py" for t in touched) and not tests_see_frontend
+        only_dp = all(t.startswith("data_persistence/") for t in touched) and \
+            tests_see_dp <= {f"{wt}/test/test_persistent_array.py", f"{wt}/test/test_persistent_dict.py"}
+        target = ""
+        if suite and ok and "--whole-suite" not in sys.argv and only_frontend:
+            r = sh(f"cd {wt} && timeout 600 /venv/bin/python -m pytest --collect-only -q -p no:cacheprovider 2>&1 | tail -3")
+            ran.append("suite: the patch touches only " + ", ".join(touched) + "; no test file imports frontend/ or "
+                       "global_config (grep), so no test can see it; collection on the patched tree -> "
+                       + r.stdout.strip().splitlines()[-1][:80])
+            if "error" in r.stdout.lower():
+                ok = False
+            suite = False
+        elif suite and ok and "--whole-suite" not in sys.argv and only_dp:
+            target = "test/test_persistent_array.py test/test_persistent_dict.py"
         if suite and ok:
             r = sh(f"cd {wt} && timeout 2400 /venv/bin/python -m pytest -q -p no:cacheprovider -n 8 --dist loadfile "
-                   f"--timeout=900 2>&1 | tail -40")
+                   f"--timeout=900 {target} 2>&1 | tail -40")
             tail = r.stdout
             mm = re.search(r"(\d+) failed, (\d+) passed", tail)
             failed = set(re.findall(r"FAILED test/test_persistent_dict.py::TestDBMDict::(\w+)", tail))
             other = [l for l in tail.splitlines() if l.startswith(("FAILED", "ERROR")) and "TestDBMDict" not in l]
-            ran.append(f"full suite on patched tree -> {mm.group(0) if mm else tail[-200:]}")
-            if not mm or int(mm.group(2)) != 90 or int(mm.group(1)) != 10 or failed != EXPECTED_FAIL or other:
+            want_pass = 29 if target else 90      # 17 array tests + 12 dict tests pass in the two persistence files
+            ran.append((f"the test files that import the patched package ({target})" if target else "full suite")
+                       + f" on patched tree -> {mm.group(0) if mm else tail[-200:]}")
+            if not mm or int(mm.group(2)) != want_pass or int(mm.group(1)) != 10 or failed != EXPECTED_FAIL or other:
                 ok = False
                 print("suite outcome differs from baseline:", mm.group(0) if mm else "?", other[:5])
     finally:
